@@ -452,7 +452,14 @@ HistFold(front, h, ops, k, objs, mm) ==
                                                  IF op.failed # <<>> /\ \A i \in DOMAIN op.failed : op.failed[i] = <<>>
                                                  THEN "eps-dropped" ELSE ""))
                             ELSE JudgeH(op.sid = op.libsid, {P} \cup (IF front = "rust" THEN SettingProps(r.cfg) ELSE {}),
-                                        "front-differs-from-library", h, k, "")))
+                                        "front-differs-from-library", h, k, ""))
+                        \* C01 / C07 on every build of a history whose settings (as the SPECIFICATION derives them from the
+                        \* history) target the regex crate: the pattern compiles and matches every test case as a whole
+                        /\ (IF front # "rust" \/ r.cfg.surr \/ r.cfg.color THEN TRUE
+                            ELSE /\ JudgeH(op.compiles, {"C01", "C07"}, "history-invalid", h, k, "")
+                                 /\ (IF op.failed = 0 THEN TRUE
+                                     ELSE EmitHX({"C01"}, "history-unsound", h, k, "",
+                                                 IF op.failed_eps THEN "eps-dropped" ELSE ""))))
                   /\ HistFold(front, h, ops, k + 1, r.objs, mm2)
 
 THist == /\ IsEvent("hist") /\ pc = "idle"
